@@ -3,8 +3,10 @@
 from __future__ import annotations
 
 import asyncio
+import contextlib
 import io
 from typing import Any
+from unittest.mock import patch
 
 from . import vloop
 from .air import Air
@@ -63,3 +65,37 @@ def reset_transport_globals(disable_duty_cycle_limit: bool = True) -> None:
     tr._global_sync_cycles.clear()
     if disable_duty_cycle_limit:
         tr._DBG_DISABLE_DUTY_CYCLE_LIMIT = True
+
+
+@contextlib.contextmanager
+def on_demand_write_spacer():
+    """The serial transport's write-spacing ticker, phase for phase, without the idle ticks.
+
+    `PortTransport._leak_sem()` releases a one-slot semaphore every MIN_INTER_WRITE_GAP seconds for ever, which
+    is a quarter of all loop iterations of a scenario lasting virtual days.  This stand-in releases it at exactly
+    the same instants (multiples of the gap after the transport was made) but only when somebody has taken the
+    slot, so the instants at which a write may go out are unchanged.  Used only by checks that do not judge
+    write spacing (C11 judges the real ticker).
+    """
+    import ramses_tx.transport as tr
+
+    async def _leak_sem(self: Any) -> None:
+        loop, sem, gap = self._loop, self._leaker_sem, tr.MIN_INTER_WRITE_GAP
+        t0, taken, acquire = loop.time(), asyncio.Event(), sem.acquire
+
+        async def _acquire() -> bool:
+            res = await acquire()
+            taken.set()
+            return res
+
+        sem.acquire = _acquire
+        while True:
+            await taken.wait()
+            taken.clear()
+            ticks = int((loop.time() - t0) / gap) + 1
+            await asyncio.sleep(max(0.0, t0 + ticks * gap - loop.time()))
+            with contextlib.suppress(ValueError):
+                sem.release()
+
+    with patch.object(tr.PortTransport, "_leak_sem", _leak_sem):
+        yield
